@@ -17,7 +17,13 @@ LEVEL = 'exploration'
 RULE = ('(a) valid programs from the typed generator G; (b) token-level '
         'mutations of such programs: 1-3 of delete / duplicate / swap / '
         'replace-by-vocabulary-token (keywords, operators, literals, '
-        'separators); (c) a template catalogue: every statement form with '
+        'separators); (b2) character-level noise on such programs: 1-3 '
+        'insertions / replacements by any of the 256 code page 437 '
+        'characters a source file can contain (control characters, CR, '
+        'NUL, ^Z, high half) or by lexically odd fragments (`&H`, `1E`, '
+        '`..`); (b3) token soup: 1-5 lines of vocabulary tokens behind a '
+        'statement keyword, inserted among up to six valid lines; '
+        '(c) a template catalogue: every statement form with '
         'each operand missing, duplicated or replaced by an expression of '
         'every other kind (numeric, string, record, array, function name, '
         'keyword), at module level, inside a SUB and inside a block - '
@@ -44,6 +50,21 @@ VOCAB = ['IF', 'THEN', 'ELSE', 'ELSEIF', 'END', 'FOR', 'TO', 'STEP', 'NEXT',
          ',', ';', ':', '.', '"', "'", '%', '&', '!', '#', '$',
          '0', '1', '32768', '2.5', '1E5', '&HFF', '"s"', 'x', 'a$', 'q%',
          '\n', '\n', ' ']
+
+ALL_CHARS = [bytes([b]).decode('cp437') for b in range(256)]
+ODD_CHARS = [bytes([b]).decode('cp437') for b in
+             (0, 9, 10, 11, 12, 13, 26, 27, 28, 29, 30, 31, 127, 128, 255)] + \
+    ['\r\n', '"', "'", '&', '&H', '&O', '.', '..', '1.', '.5', 'E', 'D',
+     '1E', '1D+', '#', '!', '%', '$', '_', '?', '@', '[', ']', '{', '}',
+     '|', '~', '`', '\\', ':', ';', ',', '(', ')']
+SOUP_STARTS = ['PRINT', 'IF', 'FOR', 'DIM', 'x =', 'a$ =', 'CALL',
+               'SELECT CASE', 'CASE', 'DO', 'LOOP', 'WHILE', 'DATA', 'READ',
+               'INPUT', 'ON ERROR GOTO', 'GOTO', 'SUB s1', 'END SUB',
+               'FUNCTION f1', 'END FUNCTION', 'TYPE t1', 'END TYPE', 'CONST',
+               'NEXT', 'END IF', 'ELSE', 'DECLARE', 'DEF', 'LOCATE', 'lbl:',
+               '10', 'REM', "'", 'PRINT USING', 'LINE INPUT', 'RESTORE',
+               'RESUME', 'SWAP', 'ERASE', 'REDIM', 'STATIC', 'SHARED',
+               'EXIT', 'END', 'LET', 'RANDOMIZE', 'DEFINT', 'OPTION BASE']
 
 TOKEN_RE = re.compile(
     r'"[^"\n]*"?|\d+\.?\d*(?:[eEdD][+-]?\d+)?[%&!#]?|&[hHoO][0-9a-fA-F]+|'
@@ -72,9 +93,33 @@ def inputs(draw, params):
     prog, script, stats = draw(gen.programs(params))
     style = draw(gen.styles())
     text = render.render(prog, style).text
-    kind = draw(st.sampled_from(['valid', 'mut', 'mut', 'mut']))
+    kind = draw(st.sampled_from(['valid', 'mut', 'mut', 'mut', 'chars',
+                                 'soup']))
     if kind == 'valid':
         return 'valid', text
+    if kind == 'chars':
+        # character-level noise: any of the 256 characters a source file
+        # can contain (qbee reads its input as code page 437)
+        chars = list(text)
+        for _ in range(draw(st.integers(1, 3))):
+            c = draw(st.one_of(st.sampled_from(ODD_CHARS),
+                               st.sampled_from(ALL_CHARS)))
+            i = draw(st.integers(0, len(chars)))
+            if draw(st.booleans()) and i < len(chars):
+                chars[i] = c
+            else:
+                chars.insert(i, c)
+        return 'chars', ''.join(chars)
+    if kind == 'soup':
+        # lines of vocabulary tokens behind a statement keyword, placed
+        # after a few valid lines so that the parser is past line 1
+        lines = text.split('\n')[:draw(st.integers(0, 6))]
+        for _ in range(draw(st.integers(1, 5))):
+            toks = [draw(st.sampled_from(SOUP_STARTS))]
+            toks += draw(st.lists(st.sampled_from(VOCAB), max_size=7))
+            sep = draw(st.sampled_from([' ', ' ', ' ', '']))
+            lines.insert(draw(st.integers(0, len(lines))), sep.join(toks))
+        return 'soup', '\n'.join(lines) + '\n'
     toks = TOKEN_RE.findall(text)
     if not toks:
         return 'valid', text
